@@ -31,6 +31,7 @@ pub fn spelled(r: &mut Rng, fam: Fam) -> (Vec<u8>, &'static str) {
         prop_shuffle: if r.bool() { r.next() | 1 } else { 0 },
         long_form: r.below(3) as u8,
         remlen_width: if r.chance(1, 4) { r.range(2, 4) as u8 } else { 0 },
+        proplen_width: if r.chance(1, 5) { r.range(2, 4) as u8 } else { 0 },
     };
     let f = ref_encode(fam, &rp, &sp);
     let mut b = f.bytes();
@@ -289,7 +290,7 @@ pub fn hostile_stream(r: &mut Rng, fam: Fam, n: usize, f: &mut dyn FnMut(&[u8], 
             }
             5 | 6 => {
                 let rp = gen::gen_any(r, fam);
-                let mut fr = ref_encode(fam, &rp, &Spelling { prop_shuffle: r.next(), long_form: r.below(3) as u8, remlen_width: 0 });
+                let mut fr = ref_encode(fam, &rp, &Spelling { prop_shuffle: r.next(), long_form: r.below(3) as u8, remlen_width: 0, proplen_width: 0 });
                 let _ = wl::mutate_frame(r, &mut fr);
                 f(&fr.bytes(), "frame-mutation");
             }
